@@ -585,6 +585,14 @@ def _repair_bang_late(text):
     return _BANG_LATE.sub(r"\1", text)
 
 
+_LEAD_FF = re.compile(r"(?m)^([ \t]*)\x0c+")
+
+
+def _repair_lead_ff(text):
+    """form feeds in the leading white space of a line removed"""
+    return _LEAD_FF.sub(r"\1", text)
+
+
 def _repair_bs_ws(text):
     """blanks between a backslash and the end of its line removed"""
     return _BS_WS.sub(r"\\", text)
@@ -621,9 +629,10 @@ FEATURES = [
     ("blanks-in-fstring-debug-field", _repair_fdebug),
     ("blanks-before-subproc-macro-bang", _repair_bang_gap),
     ("subproc-macro-bang-behind-later-word", _repair_bang_late),
+    ("form-feed-in-leading-whitespace", _repair_lead_ff),
 ]
 # features that only explain a tree difference (never a non-idempotence / comment loss)
-_TREE_ONLY = ("blanks-between-name-and-macro-paren", "blanks-in-fstring-debug-field", "blanks-before-subproc-macro-bang", "subproc-macro-bang-behind-later-word")
+_TREE_ONLY = ("form-feed-in-leading-whitespace", "blanks-between-name-and-macro-paren", "blanks-in-fstring-debug-field", "blanks-before-subproc-macro-bang", "subproc-macro-bang-behind-later-word")
 
 
 def _by_feature(text, passes, tree=False):
@@ -856,11 +865,15 @@ def _do_form(item):
             for f in flags:
                 stats[f] = stats.get(f, 0) + 1
 
-    for idx, devs in enumerate(space.layouts(lines, k)):
+    for idx, devs in enumerate(space.layouts(lines, k, prelude=core)):
         if idx % nparts != part:
             continue
         src, (flags, viols) = ev_devs(devs)
         tally(src, flags)
+        if any(sid == ("prelude",) for sid, _a in devs):
+            stats["prelude_cases"] = stats.get("prelude_cases", 0) + 1
+            if "parsed" in flags:
+                stats["prelude_cases_reaching_tree_comparison"] = stats.get("prelude_cases_reaching_tree_comparison", 0) + 1
         for v in viols:
             # minimise the layout first: drop every deviation the failure of this clause does not
             # need; the key is the one of the minimal failing layout (which is itself enumerated)
@@ -943,7 +956,9 @@ def run(ctx):
         rule=(
             f"{len(_FORMS)} forms {fams} (expressions x contexts, simple/compound/xonsh statements x block contexts up to depth 2); "
             f"every layout with <= k deviations over the alphabet of xv/c17_space.py (gaps: {len(space.GAP_OUT)} outside + {len(space.GAP_IN)} inside brackets, "
-            f"{len(space.PRE)} pre-line, {len(space.POST)} post-line, {len(space.INDENTS)} indent units, CRLF, {len(space.FINALS)} file endings); k={_K} for all forms, "
+            f"{len(space.PRE)} pre-line, {len(space.POST)} post-line, {len(space.INDENTS)} indent units, CRLF, {len(space.FINALS)} file endings; for core forms also "
+            f"{len(space.PRELUDES)} preludes = one of {len(space.LINESEP_CHARS)} characters that str.splitlines() but not the tokenizer treats as a line boundary (FF VT FS NEL U+2028) "
+            f"x {len(space.PRELUDE_PLACES)} places (one-line string, triple-quoted string, comment, leading white space), followed by the form and a tail of line-look-up dependent constructs); k={_K} for all forms, "
             f"k={_KCORE} for the core forms (pairs over the reduced alphabet); plus every proper prefix of each core form's canonical text (tokenisation clause). "
             "non-trivial = distinct program texts that xonsh's parser accepted, i.e. that reached the tree comparison"
         ),
@@ -962,6 +977,8 @@ def run(ctx):
         changed_by_formatter=stats.get("changed", 0),
         with_comments=stats.get("has_comment", 0),
         through_cli_file=stats.get("cli", 0),
+        linesep_prelude_cases=stats.get("prelude_cases", 0),
+        linesep_prelude_cases_reaching_tree_comparison=stats.get("prelude_cases_reaching_tree_comparison", 0),
         prefix_cases=stats.get("prefix_cases", 0),
         failing_cases_reduced_to_smaller_layout=stats.get("cases_reduced_to_smaller_layout", 0),
         violating_cases_by_key=counts,
